@@ -503,3 +503,54 @@ def crop_to(exp_v, exp_m, nscaffold, used, full):
     rest = numpy.ones(exp_m.shape, dtype=bool)
     rest[sl + (Ellipsis,)] = False
     return exp_v[sl], exp_m[sl], bool(exp_m[rest].all())
+
+
+class pool_on(object):
+    """Context manager: evaluate `cube` with its worker pool switched on. spec = {"size": k, "schedule": None | DetPool
+    schedule}; with a schedule the thread pool is the deterministic DetPool, otherwise the real ThreadPool."""
+
+    def __init__(self, cube, spec):
+        self.cube, self.spec, self.pools = cube, spec, []
+
+    def __enter__(self):
+        import os
+
+        import catii
+
+        from . import build
+        from .detpool import DetPool
+
+        self.cube.parallel = True
+        self.cube.poolsize = self.spec["size"]
+        sched = self.spec.get("schedule")
+        if sched:
+            here = os.path.dirname(catii.__file__)
+
+            def factory(size=None, *a, **k):
+                p = DetPool(size, sched, here)
+                self.pools.append(p)
+                return p
+
+            build.POOL_FACTORY[0] = factory
+        return self
+
+    def __exit__(self, *exc):
+        from . import build
+
+        build.POOL_FACTORY[0] = None
+        for p in self.pools:
+            p.join()
+        return False
+
+
+def pool_specs():
+    """None (serial) half of the time, else a pool size with a real ThreadPool or a DetPool 'stores' schedule."""
+    from hypothesis import strategies as st
+
+    sched = st.one_of(
+        st.none(),
+        st.builds(lambda q, p, s: {"kind": "stores", "prio": list(range(16)), "store_per_mille": q,
+                                   "prob_per_mille": p, "seed": s},
+                  st.integers(100, 700), st.integers(0, 20), st.integers(0, 10 ** 6)))
+    return st.one_of(st.none(), st.builds(lambda k, s: {"size": k, "schedule": s},
+                                          st.sampled_from([2, 3, 4, 6, 16]), sched))
